@@ -749,6 +749,16 @@ def rule_module_lifetime(repo: Repo, chk: Check, rule: str):
     t = repo.mod("types")
     lf = t.func("IC10Register.lifetime")
     chk.saw("types", "IC10Register.lifetime")
+    # a global that is assigned only inside functions ('global g; g = ..'): the node that writes it stands in the function, so "the writer's scope is a
+    # module" does not hold for it; the decision has to come from where the NAME lives (the global statement, the module's own table of names, the
+    # symbol's own scope), not only from where the writer stands
+    txt_ = " ".join(norm(x) for x in ast.walk(lf) if isinstance(x, (ast.Attribute, ast.Name, ast.Call)))
+    looks_at_name = any(w in txt_ for w in ("Global", ".globals", ".lookup(", ".root()", "scope_name", "self.scope", "is_global"))
+    if rule.startswith("R04"):      # a question of register sharing (C04); how a program is split over modules (C13) does not change it
+      chk.judge(rule, "types:IC10Register.lifetime:a global assigned only inside functions lives for the whole program", looks_at_name,
+                "module level is recognised by the scope in which the WRITER stands; a name declared 'global' in a function is written by a node of that function, gets the line "
+                "interval of its accesses, and a temporary of the main code takes its register between the call that writes it and the call that reads it", None,
+                f"{t.path}:{lf.lineno} in IC10Register.lifetime")
     cfg, rd = fn_ctx(lf)
     where = f"{t.path}:{lf.lineno} in IC10Register.lifetime"
     leaves = lifetime_leaves(t, lf, cfg, rd)
